@@ -265,8 +265,33 @@ def build_hdd_disk(chain, rng, work, cs=4096, top_default=True):
         host.append({c: pos[c] * cs for c in range(n)})
     order = list(range(len(chain)))
     rng.shuffle(order)  # the order of <Image>/<Shot> elements must not matter
-    enc_hds.write_hdd_dir(d, [(0, n * cs // 512, [images[k] for k in order])], [shots[k] for k in order], files, top_guid=guids[0])
-    return _mk_built(lambda: HDD(Path(d)).open(), cs, n, host, list(range(len(chain))), {"fmt": "hdd", "cs": cs, "top_default": top_default}), d
+    split = rng.randrange(1, n) if (n > 1 and rng.random() < 0.6) else 0
+    if not split:
+        enc_hds.write_hdd_dir(d, [(0, n * cs // 512, [images[k] for k in order])], [shots[k] for k in order], files, top_guid=guids[0])
+    else:
+        # two storages, each with its own image per snapshot: cells [0, split) and [split, n)
+        files, host = {}, []
+        st_imgs = [[], []]
+        for i, layer in enumerate(chain):
+            hrow = {}
+            for sidx, (lo, hi) in enumerate(((0, split), (split, n))):
+                m = hi - lo
+                pos = [p + 1 for p in _perm(rng, m)]
+                bat = {c: (pos[c] if layer[lo + c] == "H" else 0) for c in range(m)}
+                vf, info = enc_hds.build({"ver": 2, "n": m, "cb": 1, "bat": bat, "size": m}, cluster_size=cs, file_id=i, P=m + 1)
+                fn = f"disk.{i}.s{sidx}.hds"
+                files[fn] = vf
+                st_imgs[sidx].append((guids[i], "Compressed", fn))
+                for c in range(m):
+                    hrow[lo + c] = ("s%d" % sidx, pos[c] * cs)
+            host.append(hrow)
+        storages = [(0, split * cs // 512, [st_imgs[0][k] for k in order]), (split * cs // 512, n * cs // 512, [st_imgs[1][k] for k in order])]
+        if rng.random() < 0.5:
+            storages.reverse()
+        enc_hds.write_hdd_dir(d, storages, [shots[k] for k in order], files, top_guid=guids[0])
+        # both storage files of a layer share the layer's pattern id; the host map keeps only the byte offset
+        host = [{c: v[1] for c, v in row.items()} for row in host]
+    return _mk_built(lambda: HDD(Path(d)).open(), cs, n, host, list(range(len(chain))), {"fmt": "hdd", "cs": cs, "top_default": top_default, "split": split}), d
 
 
 # ---------------------------------------------------------------- direction A driver
@@ -345,10 +370,60 @@ def run(ctx):
     direction_A(ctx, sts, thorough)
     direction_B(ctx, thorough)
     qcow2_snapshots(ctx, rng, 40 if thorough else 10)
+    vhdx_late_chunk(ctx, rng, thorough)
     diskprop.tlc_check(ctx, "Layers", "Layers_res.cfg", min_states=100)
     resolution(ctx, thorough)
     diskprop.tlc_check(ctx, "VhdxPartial", "VhdxPartial_big.cfg" if thorough else "VhdxPartial_small.cfg", min_states=200)
     diskprop.tlc_check(ctx, "Vhdx", "VhdxDiff_small.cfg", min_states=200)
+
+
+# ---------------------------------------------------------------- VHDX: partially-present block in a later chunk (second sector-bitmap entry)
+def vhdx_late_chunk(ctx, rng, thorough):
+    """Differencing disk larger than one chunk: the partially-present block lies in chunk 1 (or 2), so its sector bitmap is
+    found through a later sector-bitmap BAT entry.  Byte offsets exceed 2^31, so this is compared in Python against the
+    overlay semantics of Layers (child sector if its bit is set, else the parent's)."""
+    from dissect.hypervisor.disk.vhdx import VHDX
+
+    work = tempfile.mkdtemp(prefix="verif-c07l-")
+    try:
+        for bs, sector in ((256 << 20, 512), (32 << 20, 512)) if thorough else ((256 << 20, 512),):
+            cr = (2 ** 23 * sector) // bs
+            nblk = 2 * cr + 3
+            spb = bs // sector
+            for chunk, inchunk in ((1, 2), (2, 0), (0, cr - 1)):
+                blk = chunk * cr + inchunk
+                if blk >= nblk:
+                    continue
+                bits = bytearray(1 << 20)
+                present = sorted(rng.sample(range(0, 200), 90))
+                for x in present:
+                    g = inchunk * spb + x
+                    bits[g // 8] |= 1 << (g % 8)
+                cblocks = [(enc_vhdx.ST_NOT_PRESENT, None)] * nblk
+                cblocks[blk] = (enc_vhdx.ST_PARTIAL, 0)
+                pblocks = [(enc_vhdx.ST_NOT_PRESENT, None)] * nblk
+                pblocks[blk] = (enc_vhdx.ST_FULL, 0)
+                d = tempfile.mkdtemp(prefix="late-", dir=work)
+                loc = {"parent_linkage": "{1}", "relative_path": ".\\base.vhdx", "absolute_win32_path": "C:\\x\\base.vhdx"}
+                cv, ci = enc_vhdx.build(cblocks, block_size=bs, sector_size=sector, disk_size=nblk * bs, has_parent=True, locator=loc,
+                                        bitmaps={chunk: bytes(bits)}, file_id=0)
+                pv, pi = enc_vhdx.build(pblocks, block_size=bs, sector_size=sector, disk_size=nblk * bs, file_id=1)
+                cv.materialise(os.path.join(d, "child.avhdx"))
+                pv.materialise(os.path.join(d, "base.vhdx"))
+                v = VHDX(Path(d) / "child.avhdx")
+                for s0, cnt in [(0, 200), (3, 17), (7, 9), (8, 8), (1, 8), (100, 64)] + [(rng.randrange(0, 190), rng.randrange(1, 40)) for _ in range(10)]:
+                    got = v.read_sectors(blk * spb + s0, cnt)
+                    exp = b"".join(patterns.pat(0 if (s0 + j) in present else 1,
+                                                (ci if (s0 + j) in present else pi)["data_base"] + (s0 + j) * sector, sector) for j in range(cnt))
+                    ctx.case(key=("late", bs, chunk, s0, cnt), nontrivial=True,
+                             sample={"realisation": "vhdx-late-chunk", "block": blk, "chunk": chunk, "read_sectors": [s0, cnt]} if (s0, cnt) == (3, 17) and chunk == 1 else None)
+                    if got != exp:
+                        ctx.violation({"realisation": "vhdx-late-chunk", "format": "vhdx-late-chunk", "fail": "read-mismatch", "chunk": chunk},
+                                      {"block_size": bs, "chunk": chunk, "block": blk, "read_sectors": [s0, cnt], "diff": disk.first_diff(exp, got)})
+                        break
+                shutil.rmtree(d, ignore_errors=True)
+    finally:
+        shutil.rmtree(work, ignore_errors=True)
 
 
 # ---------------------------------------------------------------- direction B: random chains at real geometry
